@@ -470,6 +470,29 @@ def timezone(haystack_tz, version=LATEST_VER):
                 % haystack_tz)
     return pytz.timezone(tz_name)
 
+def in_timezone(dt, haystack_tz, version=LATEST_VER):
+    """
+    Express the (timezone-aware) date/time in the given Haystack timezone.
+    """
+    tz = timezone(haystack_tz, version=version)
+    try:
+        return dt.astimezone(tz)
+    except OverflowError:
+        # Within a zone offset of datetime.min / datetime.max the instant has
+        # no UTC datetime for astimezone() to go through.  There the zone is
+        # before its first (after its last) transition: take the tzinfo it
+        # has a day further in and attach it to the wall time as written.
+        naive = dt.replace(tzinfo=None)
+        day = datetime.timedelta(days=1)
+        if naive.year == datetime.MINYEAR:
+            near = naive + day
+        else:
+            near = naive - day
+        local = naive.replace(tzinfo=tz.localize(near).tzinfo)
+        if local.utcoffset() != dt.utcoffset():
+            raise
+        return local
+
 def timezone_name(dt, version=LATEST_VER):
     """
     Determine an appropriate timezone for the given date/time object
